@@ -45,15 +45,17 @@ mpmath.mp.dps = 60
 
 
 # ---------------------------------------------------------------------------
-# generator
+# generator: a fixed schedule of case FAMILIES (every family occurs in every quick run), random
+# parameters inside each family
 # ---------------------------------------------------------------------------
 def split(rng, k, denom):
     cuts = sorted(rng.sample(range(1, denom), k - 1)) if k > 1 else []
     return [b - a for a, b in zip([0] + cuts, cuts + [denom])]
 
 
-def gen_mdp(rng):
-    nS, nA = rng.randint(2, 6), rng.choice([1, 2, 2, 3, 3, 4, 4])
+def gen_mdp(rng, nS=None, nA=None, anchor=False, rscale=1, gamma=None):
+    nS = nS or rng.randint(2, 6)
+    nA = nA or rng.choice([1, 2, 2, 3, 3, 4, 4])
     T = []
     for s in range(nS):
         rows = []
@@ -61,19 +63,30 @@ def gen_mdp(rng):
             denom = rng.choice([2, 4, 8, 16])
             k = rng.randint(1, min(nS, 3, denom))
             sup = rng.sample(range(nS), k)
+            if anchor and 0 not in sup:          # every row reaches state 0: bounded value spans
+                sup[0] = 0
             row = ["0"] * nS
             for n, p in zip(sup, split(rng, k, denom)):
                 row[n] = str(F(p, denom))
+            if anchor and F(row[0]) < F(1, 4):
+                # move mass to state 0 so that it holds at least 1/4
+                j = max(range(nS), key=lambda n: F(row[n]) if n else F(-1))
+                d = F(1, 4) - F(row[0])
+                if nS > 1 and F(row[j]) > d:
+                    row[j], row[0] = str(F(row[j]) - d), "1/4"
+                else:
+                    row = ["1"] + ["0"] * (nS - 1)
             rows.append(row)
         if nA >= 2 and rng.random() < .15:      # duplicate action rows: exact ties in q
             rows[1] = list(rows[0])
         T.append(rows)
-    shape = rng.choice(["full"] * 6 + ["sa1", "11n", "1a1", "s11"])
-    dims = {"full": (nS, nA, nS), "sa1": (nS, nA, 1), "11n": (1, 1, nS), "1a1": (1, nA, 1), "s11": (nS, 1, 1)}[shape]
-    R = [[[str(rng.randint(-5, 5)) for _ in range(dims[2])] for _ in range(dims[1])] for _ in range(dims[0])]
+    shape = rng.choice(["full"] * 6 + ["sa1", "11n", "1a1", "s11", "111"])
+    dims = {"full": (nS, nA, nS), "sa1": (nS, nA, 1), "11n": (1, 1, nS), "1a1": (1, nA, 1), "s11": (nS, 1, 1),
+            "111": (1, 1, 1)}[shape]
+    R = [[[str(rscale * rng.randint(-5, 5)) for _ in range(dims[2])] for _ in range(dims[1])] for _ in range(dims[0])]
     if shape == "full" and nA >= 2 and T[0][0] == T[0][1] and rng.random() < .7:
         R[0][1] = list(R[0][0])
-    return {"nS": nS, "nA": nA, "T": T, "R": R, "gamma": rng.choice(["1/2", "9/10"])}
+    return {"nS": nS, "nA": nA, "T": T, "R": R, "gamma": gamma or rng.choice(["1/2", "9/10"])}
 
 
 def gen_prior(rng, nS, nA):
@@ -89,50 +102,196 @@ def gen_prior(rng, nS, nA):
     return [row() for _ in range(rows)]
 
 
+def gen_weight(rng, nS, lams=LAMS, per_state=.3):
+    if rng.random() < per_state:
+        return [rng.choice(lams) for _ in range(nS)], "per_state"
+    lam = rng.choice(lams)
+    return lam, rng.choice(["float", "float", "tensor1", "npfloat"] + (["int"] if F(lam).denominator == 1 else []))
+
+
+def base(rng, m, group, **kw):
+    c = dict(m)
+    lam, style = gen_weight(rng, m["nS"])
+    c.update({"lam": lam, "lam_style": style, "pi0": gen_prior(rng, m["nS"], m["nA"]),
+              "force_nonzero": rng.random() < .5, "via": "function", "n_iters": 300, "group": group,
+              "gamma_style": "float", "init": None, "noncontig": False, "requires_grad": False, "repeat": False})
+    c.update(kw)
+    return c
+
+
+STR_LABELS = ["", "b", "a2", "Z", "a10", "c"]
+TUP_LABELS = [[], [0], [1, 0], [0, 0], [2], [0, 1]]
+
+
+def fam_general(rng):
+    return [base(rng, gen_mdp(rng), "general")]
+
+
+def fam_ladder(rng):
+    m = gen_mdp(rng, nA=rng.choice([2, 3, 4]))
+    return [base(rng, m, "ladder", lam=lam, lam_style=rng.choice(["float", "tensor1"]), pi0=None)
+            for lam in ["1/10", "1/100", "1/1000"]]
+
+
+def fam_planner(rng, variant):
+    """through EntropyRegularizedPolicyIteration.plan_on; the MDP is built with the given labels, the result
+    is read back by label.  variants: label kinds (ints in non-sorted order, strings incl. '', tuples incl. ()),
+    single start state (unreachable states drop out of the inferred state list), explicit prior, default
+    iteration cap (None), cap 1 (warning path), planner object first used on another MDP with the same labels
+    and cached views of the MDP touched before planning"""
+    m = gen_mdp(rng, nA=rng.choice([1, 2, 3, 4]))
+    nS, nA = m["nS"], m["nA"]
+    lam = rng.choice(LAMS)
+    kind = variant if variant in ("perm", "str", "tuple") else rng.choice(["int", "perm", "str", "tuple"])
+    if kind == "int":
+        sl, al = list(range(nS)), list(range(nA))
+    elif kind == "perm":
+        sl, al = rng.sample(range(nS), nS), rng.sample(range(nA), nA)
+    elif kind == "str":
+        sl, al = rng.sample(STR_LABELS, nS), rng.sample(STR_LABELS, nA)
+        if "" not in sl:
+            sl[rng.randrange(nS)] = ""
+        if "" not in al:
+            al[rng.randrange(nA)] = ""
+    else:
+        sl, al = rng.sample(TUP_LABELS, nS), rng.sample(TUP_LABELS, nA)
+        if [] not in sl:
+            sl[rng.randrange(nS)] = []
+        if [] not in al:
+            al[rng.randrange(nA)] = []
+    c = base(rng, m, "planner:" + variant, via="planner", lam=lam, pi0=None, force_nonzero=True,
+             lam_style=rng.choice(["float", "float", "tensor1"] + (["int"] if F(lam).denominator == 1 else [])),
+             state_labels=sl, action_labels=al, start=None, iterations=300, decoy=False)
+    if variant == "start":
+        # a closed set U around the start state: the other states are unreachable and must drop out
+        c["start"] = rng.randrange(nS)
+        U = sorted(set([c["start"]] + rng.sample(range(nS), rng.randint(0, nS - 2))))
+        T = [[list(r) for r in mm] for mm in m["T"]]
+        for s_ in U:
+            for a_ in range(nA):
+                row = [F(0)] * nS
+                for n_, p_ in enumerate(T[s_][a_]):
+                    if F(p_) > 0:
+                        row[n_ if n_ in U else rng.choice(U)] += F(p_)
+                T[s_][a_] = [str(x) for x in row]
+        c["T"] = T
+    elif variant == "prior":
+        c["pi0"] = [[str(F(p, 16)) for p in split(rng, nA, 16)]]
+    elif variant == "default_cap":
+        c["iterations"] = None
+    elif variant == "cap1":
+        c["iterations"] = 1
+    elif variant == "reuse":
+        c["decoy"] = True
+    return [c]
+
+
+def fam_boundary(rng, variant):
+    if variant == "gamma0_int":
+        return [base(rng, gen_mdp(rng, nA=rng.choice([2, 3, 4]), gamma="0"), "boundary:" + variant, gamma_style="int")]
+    if variant == "gamma0_float":
+        return [base(rng, gen_mdp(rng, nA=rng.choice([2, 3, 4]), gamma="0"), "boundary:" + variant)]
+    if variant == "gamma_near_1":
+        # values ~ 1e6-1e7 with spans of a few units (every row puts >= 1/4 on state 0)
+        m = gen_mdp(rng, nA=rng.choice([2, 3, 4]), anchor=True, gamma="1048575/1048576")
+        lam, style = gen_weight(rng, m["nS"], lams=["1", "2", "10"], per_state=.2)
+        return [base(rng, m, "boundary:" + variant, lam=lam, lam_style=style)]
+    if variant == "tiny_prob":
+        m = gen_mdp(rng, nA=rng.choice([2, 3, 4]))
+        eps = F(1, 2**30)
+        for s in range(m["nS"]):
+            for a in range(m["nA"]):
+                if rng.random() < .5:
+                    row = [F(x) for x in m["T"][s][a]]
+                    j = max(range(m["nS"]), key=lambda n: row[n])
+                    k = rng.choice([n for n in range(m["nS"]) if n != j])
+                    row[j], row[k] = row[j] - eps, row[k] + eps      # entries 2^-30 and 1-2^-30 style
+                    m["T"][s][a] = [str(x) for x in row]
+        # two actions whose rows differ by 2^-30 of mass: action values 1e-9 apart
+        row = [F(x) for x in m["T"][0][0]]
+        j = max(range(m["nS"]), key=lambda n: row[n])
+        k = (j + 1) % m["nS"]
+        row[j], row[k] = row[j] - eps, row[k] + eps
+        m["T"][0][1] = [str(x) for x in row]
+        return [base(rng, m, "boundary:" + variant)]
+    if variant == "prior_edge":
+        m = gen_mdp(rng, nA=rng.choice([2, 3, 4]))
+        e = F(1, 2**20)
+        row = [e] * m["nA"]
+        row[rng.randrange(m["nA"])] = 1 - (m["nA"] - 1) * e
+        return [base(rng, m, "boundary:" + variant, pi0=[[str(x) for x in row]])]
+    if variant == "one_state":
+        return [base(rng, gen_mdp(rng, nS=1, nA=rng.choice([1, 2, 3])), "boundary:" + variant)]
+    if variant == "reward_1e3":
+        m = gen_mdp(rng, rscale=1000)
+        lam, style = gen_weight(rng, m["nS"], lams=["1/10", "1/2", "1", "2", "10"])
+        return [base(rng, m, "boundary:" + variant, lam=lam, lam_style=style)]
+    if variant == "reward_1e5":
+        m = gen_mdp(rng, rscale=100000, gamma="1/2")
+        return [base(rng, m, "boundary:" + variant, lam="10", lam_style=rng.choice(["float", "int", "tensor1"]))]
+    raise ValueError(variant)
+
+
+def fam_init(rng, variant):
+    """explicit initial_policy (the default is derived from the prior): full-support random, or deterministic
+    (zeros: nansum branch without clamping, clamp branch with it)"""
+    m = gen_mdp(rng, nA=rng.choice([2, 3, 4]))
+    nS, nA = m["nS"], m["nA"]
+    if variant == "onehot":
+        init = [[("1" if a == k else "0") for a in range(nA)] for k in [rng.randrange(nA) for _ in range(nS)]]
+    else:
+        init = [[str(F(p, 8)) for p in split(rng, nA, 8)] for _ in range(nS)]
+    return [base(rng, m, "init:" + variant, init=init, force_nonzero=ff) for ff in (True, False)]
+
+
+def fam_cap(rng, cap):
+    return [base(rng, gen_mdp(rng), "cap:%d" % cap, n_iters=cap)]
+
+
+def fam_repr(rng, variant):
+    m = gen_mdp(rng)
+    if variant == "views":
+        return [base(rng, m, "repr:views", noncontig=True, requires_grad=True)]
+    return [base(rng, m, "repr:repeat", repeat=True)]
+
+
+SCHEDULE = (
+    [("general",)] * 4 + [("ladder",)] + [("planner", v) for v in ("perm", "str", "tuple", "start", "prior", "default_cap", "cap1", "reuse")]
+    + [("general",)] * 3
+    + [("boundary", v) for v in ("gamma0_int", "gamma0_float", "gamma_near_1", "tiny_prob", "prior_edge", "one_state", "reward_1e3", "reward_1e5")]
+    + [("general",)] * 3 + [("init", "onehot"), ("init", "random"), ("cap", 1), ("cap", 2), ("repr", "views"), ("repr", "repeat")]
+    + [("general",)] * 2)
+FAMS = {"general": fam_general, "ladder": fam_ladder, "planner": fam_planner, "boundary": fam_boundary,
+        "init": fam_init, "cap": fam_cap, "repr": fam_repr}
+
+
 def gen_cases(rng, ncases):
-    cases = []
+    cases, k = [], 0
     while len(cases) < ncases:
-        m = gen_mdp(rng)
-        r = rng.random()
-        if r < .1:
-            # lambda ladder on one MDP, uniform prior: the lambda -> 0 clause
-            for lam in ["1/10", "1/100", "1/1000"]:
-                c = dict(m)
-                c.update({"lam": lam, "lam_style": rng.choice(["float", "tensor1"]), "pi0": None,
-                          "force_nonzero": rng.random() < .5, "via": "function", "n_iters": 300, "group": "ladder"})
-                cases.append(c)
-            continue
-        c = dict(m)
-        if r < .3 and len(m["R"]) == m["nS"] and len(m["R"][0]) == m["nA"] and len(m["R"][0][0]) == m["nS"]:
-            c.update({"lam": rng.choice(LAMS), "lam_style": rng.choice(["float", "float", "tensor1"]), "pi0": None,
-                      "force_nonzero": True, "via": "planner", "n_iters": 300, "group": "planner"})
-            cases.append(c)
-            continue
-        if rng.random() < .3:
-            lam, style = [rng.choice(LAMS) for _ in range(m["nS"])], "per_state"
-        else:
-            lam = rng.choice(LAMS)
-            style = rng.choice(["float", "float", "tensor1"] + (["int"] if F(lam).denominator == 1 else []))
-        c.update({"lam": lam, "lam_style": style, "pi0": gen_prior(rng, m["nS"], m["nA"]),
-                  "force_nonzero": rng.random() < .5, "via": "function", "n_iters": 300, "group": "general"})
-        cases.append(c)
+        f = SCHEDULE[k % len(SCHEDULE)]
+        k += 1
+        cases.extend(FAMS[f[0]](rng, *f[1:]))
     return cases[:ncases]
 
 
 # ---------------------------------------------------------------------------
 # exact views of a case
 # ---------------------------------------------------------------------------
-def full_arrays(case):
+def full_arrays(case, res=None):
+    """exact tensors of the case, in the index order of the result (a planner result lists the states it
+    inferred by reachability and its action order; the direct call uses the case's own order)"""
     nS, nA = case["nS"], case["nA"]
-    T = [[[F(x) for x in row] for row in m] for m in case["T"]]
+    st = list(res["states"]) if res and "states" in res else list(range(nS))
+    ac = list(res["actions"]) if res and "actions" in res else list(range(nA))
     Rb = case["R"]
+    T = [[[F(case["T"][s][a][n]) for n in st] for a in ac] for s in st]
     R = [[[F(Rb[s if len(Rb) > 1 else 0][a if len(Rb[0]) > 1 else 0][n if len(Rb[0][0]) > 1 else 0])
-           for n in range(nS)] for a in range(nA)] for s in range(nS)]
+           for n in st] for a in ac] for s in st]
     if case["pi0"] is None:
-        p0 = [[F(1, nA)] * nA for _ in range(nS)]
+        p0 = [[F(1, nA)] * nA for _ in st]
     else:
-        p0 = [[F(x) for x in case["pi0"][s if len(case["pi0"]) > 1 else 0]] for s in range(nS)]
-    lam = [F(x) for x in case["lam"]] if isinstance(case["lam"], list) else [F(case["lam"])] * nS
+        p0 = [[F(case["pi0"][s if len(case["pi0"]) > 1 else 0][a]) for a in ac] for s in st]
+    lam = [F(case["lam"][s]) for s in st] if isinstance(case["lam"], list) else [F(case["lam"])] * len(st)
     return T, R, p0, lam, F(case["gamma"])
 
 
@@ -176,8 +335,8 @@ class Eval:
 
     def __init__(self, case, res):
         self.case, self.res = case, res
-        self.nS, self.nA = case["nS"], case["nA"]
-        self.T, self.R, self.p0, self.lam_given, self.g = full_arrays(case)
+        self.T, self.R, self.p0, self.lam_given, self.g = full_arrays(case, res)
+        self.nS, self.nA = len(self.T), len(self.T[0])
         self.q = [[vlib.frac(x) for x in row] for row in res["q"]]
         self.pi = [[vlib.frac(x) for x in row] for row in res["pi"]]
         self.v = [vlib.frac(x) for x in res["v"]]
@@ -189,7 +348,7 @@ class Eval:
         self.rtol = F(1001, 1000) * F(1, 10**5)
         self.temperature = "given"
         self.set_lam(self.lam_given)
-        if case["lam_style"] == "float" and not self.mp_ok():
+        if case["lam_style"] in ("float", "npfloat") and not self.mp_ok():
             l32 = [f32(x) for x in self.lam_given]
             if l32 != self.lam_given:
                 self.set_lam(l32)
@@ -264,9 +423,30 @@ Local Open Scope R_scope.
 """
 
 
-def case_module(idx, ev):
+def select_entries(ev, rng, tier):
+    """which numbers get a Coq goal.  thorough: all.  quick: 2 states, 2 actions each (drawn from ctx.rng)
+    PLUS every entry the 60-digit evaluation finds outside its tolerance (so a wrong number always meets a
+    goal that cannot be proved; the evaluation itself never accepts anything)."""
+    if tier != "quick":
+        return None
+    states = rng.sample(range(ev.nS), min(2, ev.nS))
+    sel = {"s": set(states), "sa": set()}
+    for s in states:
+        for a in rng.sample(range(ev.nA), min(2, ev.nA)):
+            sel["sa"].add((s, a))
+    for kind, s, a, _, _, _ in ev.mp_failures()[:6]:
+        sel["s"].add(s)
+        if a is not None:
+            sel["sa"].add((s, a))
+    assert all(s in sel["s"] for s, _ in sel["sa"])
+    return sel
+
+
+def case_module(idx, ev, sel=None):
     """-> (text lines, [(lemma name, kind, s, a)])"""
     nS, nA = ev.nS, ev.nA
+    states = [s for s in range(nS) if sel is None or s in sel["s"]]
+    pairs = [(s, a) for s in range(nS) for a in range(nA) if sel is None or (s, a) in sel["sa"]]
     L = ["Module K%d." % idx,
          "Definition Tt : list (list (list R)) := %s." % rten(ev.T),
          "Definition Rt : list (list (list R)) := %s." % rten(ev.R),
@@ -280,22 +460,20 @@ def case_module(idx, ev):
          "Ltac ev := cbv [E1_at E2sh_at E3sh_at lookahead softmax_sh lse_sh Zsum_sh sumf nadd n0 NumR t1 t2 t3 nth Tt Rt gm lt pt qt vt it ct].",
          "Ltac iv := ev; interval with (i_prec 80)."]
     goals = []
-    for s in range(nS):
+    for s in states:
         L.append("Lemma l%d : t1 lt %d%%nat <> 0. Proof. ev. lra. Qed." % (s, s))
         L.append("Lemma z%d : 0 < Zsum_sh %d%%nat (t1 lt) (t2 pt) (t1 ct) (t2 qt) %d%%nat. Proof. iv. Qed." % (s, nA, s))
         goals.append(("z%d" % s, "side", s, None))
-    for s in range(nS):
-        for a in range(nA):
-            L.append("Lemma e1_%d_%d : E1_at %d%%nat (t3 Tt) (t3 Rt) gm %s (t1 vt) (t2 qt) %d%%nat %d%%nat. Proof. iv. Qed."
-                     % (s, a, nS, rl(ev.eps1), s, a))
-            goals.append(("e1_%d_%d" % (s, a), "e1", s, a))
-    for s in range(nS):
-        for a in range(nA):
-            L.append("Lemma e2_%d_%d : E2_at %d%%nat (t1 lt) (t2 pt) %s %s (t2 qt) (t2 it) %d%%nat %d%%nat. "
-                     "Proof. apply (E2_at_shift_gen _ _ _ (t1 ct)); [exact l%d|exact z%d|iv]. Qed."
-                     % (s, a, nA, rl(ev.atol), rl(ev.rtol), s, a, s, s))
-            goals.append(("e2_%d_%d" % (s, a), "e2", s, a))
-    for s in range(nS):
+    for s, a in pairs:
+        L.append("Lemma e1_%d_%d : E1_at %d%%nat (t3 Tt) (t3 Rt) gm %s (t1 vt) (t2 qt) %d%%nat %d%%nat. Proof. iv. Qed."
+                 % (s, a, nS, rl(ev.eps1), s, a))
+        goals.append(("e1_%d_%d" % (s, a), "e1", s, a))
+    for s, a in pairs:
+        L.append("Lemma e2_%d_%d : E2_at %d%%nat (t1 lt) (t2 pt) %s %s (t2 qt) (t2 it) %d%%nat %d%%nat. "
+                 "Proof. apply (E2_at_shift_gen _ _ _ (t1 ct)); [exact l%d|exact z%d|iv]. Qed."
+                 % (s, a, nA, rl(ev.atol), rl(ev.rtol), s, a, s, s))
+        goals.append(("e2_%d_%d" % (s, a), "e2", s, a))
+    for s in states:
         L.append("Lemma e3_%d : E3_at %d%%nat (t1 lt) (t2 pt) %s (t1 vt) (t2 qt) %d%%nat. "
                  "Proof. apply (E3_at_shift_gen _ _ _ (t1 ct)); [exact l%d|exact z%d|iv]. Qed."
                  % (s, nA, rl(ev.eps3[s]), s, s, s))
@@ -385,8 +563,10 @@ def run(ctx):
     evals, mods = {}, []
     stats = {"converged": 0, "not_converged": 0, "temperature_given": 0, "temperature_float32": 0,
              "via_planner": 0, "force_nonzero": 0, "per_state_weight": 0, "prior_default": 0, "prior_per_state": 0,
-             "reward_broadcast": 0, "clamped_policy_entries": 0, "iterations_max": 0}
-    by_lam = {}
+             "reward_broadcast": 0, "clamped_policy_entries": 0, "zero_policy_entries": 0, "iterations_max": 0,
+             "states_dropped_by_reachability": 0, "repeat_calls": 0, "repeat_calls_differ": 0, "max_abs_exponent": 0.0,
+             "max_abs_value": 0.0}
+    by_lam, by_group = {}, {}
     for i, (case, res) in enumerate(zip(cases, impl)):
         if "error" in res:
             ctx.violation("C19:raises:" + res["error"].split(":")[0], {"case": case, "error": res["error"], "trace": res.get("trace")}, found=True)
@@ -398,6 +578,14 @@ def run(ctx):
         stats["prior_per_state"] += case["pi0"] is not None and len(case["pi0"]) > 1
         stats["reward_broadcast"] += not (len(case["R"]) == case["nS"] and len(case["R"][0]) == case["nA"] and len(case["R"][0][0]) == case["nS"])
         stats["iterations_max"] = max(stats["iterations_max"], res["iterations"])
+        g = by_group.setdefault(case["group"], {"cases": 0, "converged": 0})
+        g["cases"] += 1
+        g["converged"] += bool(res["converged"])
+        if res.get("repeat_same") is not None:
+            stats["repeat_calls"] += 1
+            stats["repeat_calls_differ"] += not res["repeat_same"]
+        if "states" in res:
+            stats["states_dropped_by_reachability"] += case["nS"] - len(res["states"])
         if not res["converged"]:
             stats["not_converged"] += 1          # the property only speaks about reported convergence
             continue
@@ -410,9 +598,12 @@ def run(ctx):
         evals[i] = ev
         stats["temperature_" + ev.temperature] += 1
         stats["clamped_policy_entries"] += sum(1 for row in ev.pi for x in row if 0 < x < F(1, 10**300))
+        stats["zero_policy_entries"] += sum(1 for row in ev.pi for x in row if x == 0)
+        stats["max_abs_exponent"] = max(stats["max_abs_exponent"], max(float((ev.c[s] - x) / ev.lam[s]) for s in range(ev.nS) for x in ev.q[s]))
+        stats["max_abs_value"] = max(stats["max_abs_value"], float(max(abs(x) for x in ev.v)))
         for l in set(ev.lam_given):
             by_lam[str(l)] = by_lam.get(str(l), 0) + 1
-        L, goals = case_module(i, ev)
+        L, goals = case_module(i, ev, select_entries(ev, ctx.rng, tier))
         mods.append((i, L, goals))
 
     # shards balanced by number of goals
@@ -484,16 +675,21 @@ def run(ctx):
     ctx.coverage.update({
         "evaluations": ngoals,
         "distinct_nontrivial": len(distinct),
-        "rule": "row-stochastic tensors with 2-6 states x 1-4 actions, probabilities k/2..k/16 with zero entries and duplicated action rows, "
-                "integer rewards -5..5 in shapes (S,A,S),(S,A,1),(1,1,S),(1,A,1),(S,1,1), gamma in {1/2,9/10}, entropy weight in "
-                "{1e-3,1e-2,1e-1,1/2,1,2,10} as Python float / int / 1-element tensor / per-state tensor, prior None (uniform) or on the open simplex k/16 "
-                "((1,A) or (S,A)), force_nonzero_probabilities both ways; about 20% of cases in lambda ladders (uniform prior, 1e-1,1e-2,1e-3 on one MDP), about 15% through "
-                "EntropyRegularizedPolicyIteration.plan_on; one interval-proved goal per number (q, pi: states x actions; v, Z>0: states) of every "
-                "CONVERGED result; distinct = structural hash of the case; non-trivial = converged with >= 2 actions (all have >= 2 states)",
+        "rule": "fixed schedule of families (harness/c19.py SCHEDULE, 35 entries = 40 cases, repeated in thorough): general (row-stochastic tensors, "
+                "2-6 states x 1-4 actions, probabilities k/2..k/16 with zero entries and duplicated action rows, integer rewards -5..5 in shapes "
+                "(S,A,S),(S,A,1),(1,1,S),(1,A,1),(S,1,1),(1,1,1), gamma in {1/2,9/10}, weight in {1e-3..10} as Python float / numpy float / int / "
+                "1-element tensor / per-state tensor, prior None or on the open simplex k/16 as (1,A) or (S,A), force_nonzero both ways); lambda ladder "
+                "(uniform prior, 1e-1,1e-2,1e-3 on one MDP); planner (plan_on with int labels in non-sorted order / strings incl. '' / tuples incl. (), single "
+                "start state so that unreachable states drop out, explicit prior, iterations=None, iterations=1, planner object reused after another MDP with the "
+                "same labels and after the MDP's cached matrices were read); boundary (gamma = 0 as int and float, gamma = 1-2^-20, probabilities 2^-30 and "
+                "action rows 2^-30 apart, prior entries 2^-20, one state, rewards x1e3 and x1e5); explicit initial_policy (one-hot / random, clamp on and off); "
+                "iteration caps 1 and 2; non-contiguous + requires_grad tensors; repeated call on the same tensors.  Goals: thorough = one interval-proved goal "
+                "per number (q, pi: states x actions; v, Z>0: states) of every CONVERGED result; quick = 2 states x 2 actions per case plus every entry the "
+                "60-digit evaluation finds out of tolerance.  distinct = structural hash of the case; non-trivial = converged with >= 2 actions",
         "samples": sample,
         "cases": len(cases), "goals": ngoals, "goals_proved": nproved, "cases_with_unproved_goal": len(bad_cases),
         "rate_checks": nrate, "rate_worst_distance_over_bound": worst,
         "ladders_complete": full, "ladders_monotone": mono,
-        "weights_seen": by_lam, "input_features": stats,
+        "weights_seen": by_lam, "families": by_group, "input_features": stats,
         "extra_obligations": ngoals, "extra_discharged": nproved,
     })
